@@ -602,6 +602,14 @@ class Engine:
         return z3.And(*[truth(r) for r in res])
 
     def compare(self, op, a, b, st):
+        if isinstance(op, (ast.In, ast.NotIn)):
+            if isinstance(b, (tuple, list)) and not isinstance(b, Opaque) and all(isinstance(x, str) for x in b) and (isinstance(a, str) or (isinstance(a, Opaque) and a.kind == 'strsym')):
+                if isinstance(a, str):
+                    r = a in b
+                    return r if isinstance(op, ast.In) else (not r)
+                r = z3.Or(*[a.eq(x) for x in b])
+                return r if isinstance(op, ast.In) else z3.Not(r)
+            raise OutOfSubset('membership test')
         if isinstance(op, (ast.Is, ast.IsNot)):
             if b is None or a is None:
                 other = a if b is None else b
@@ -922,6 +930,8 @@ class Engine:
         self.obls.append(Obligation('%s/use[%s]/entry-state-matches-fragment-setup' % (self.c.key, key), [], z3.BoolVal(not problems), kind='frame'))
         if problems:
             raise ContractError('use of fragment %s: %s' % (key, '; '.join(problems)))
+        if spec.get('ghost_before'):
+            self.run_ghost(spec['ghost_before'], st)
         # names bound for the evaluation of the fragment's clauses take precedence over program variables of the same name
         # (the fragment's ghost n0 is the level size, the function has its own variable n0)
         binds = {g: self.ev_str(src, st) for g, src in spec.get('bind', {}).items()}
@@ -937,7 +947,10 @@ class Engine:
         # (2) havoc of the write set; arrays mutated in place must be allocated inside the fragment
         names, stores = self.write_set(stmts)
         fresh_inside = self.fresh_alloc_names(stmts)
-        bad = sorted(n_ for n_ in stores if n_ not in fresh_inside)
+        # arrays declared by the fragment's setup may be updated in place by it (they are its interface state): their objects are
+        # havocked below; every other array stored into must be allocated inside the fragment
+        owned = sorted(n_ for n_ in stores if n_ not in fresh_inside and isinstance(fs.env.get(n_), Ref))
+        bad = sorted(n_ for n_ in stores if n_ not in fresh_inside and n_ not in owned)
         self.obls.append(Obligation('%s/use[%s]/frame' % (self.c.key, key), [], z3.BoolVal(not bad), kind='frame'))
         if bad:
             raise ContractError('fragment %s stores into %s, which is not allocated inside it' % (key, bad))
@@ -945,6 +958,15 @@ class Engine:
                                 'replaced_by': 'the ensures of contract %s (proved separately from the same source lines)' % key})
         s2 = st.fork()
         for nm in sorted(names | stores):
+            if nm in owned and nm not in names:
+                o_ = s2.heap[s2.env[nm].oid]
+                # updated in place: same object, arbitrary contents.  Another name bound to the same object would see the update
+                # too; such aliasing of an interface array is refused
+                if any(isinstance(v_, Ref) and v_.oid == s2.env[nm].oid and k_ != nm for k_, v_ in s2.env.items()):
+                    raise ContractError('fragment %s updates %s in place and the call site holds an alias of it' % (key, nm))
+                o_.term = fresh('fr_' + nm, o_.term.sort())
+                o_.meta = {}
+                continue
             s2.env.pop(nm, None)
         for nm, (kind, *dims) in spec.get('declare', {}).items():
             if nm not in names | stores:
@@ -1502,6 +1524,16 @@ class Engine:
                 elem = lambda t: self.np.index1(self, st_cur[0], itv, t)
             else:
                 raise OutOfSubset('for over %r' % (it,))
+        # 0. the havoc at the head of the arbitrary iteration gives every array name that the body re-binds its OWN fresh object:
+        # sound only if, wherever control reaches the head, such a name does not share its object with another name
+        def alias_free(state):
+            refs = {}
+            for k_, v_ in state.env.items():
+                if isinstance(v_, Ref):
+                    refs.setdefault(v_.oid, []).append(k_)
+            return sorted(k_ for k_ in names if isinstance(state.env.get(k_), Ref) and len(refs[state.env[k_].oid]) > 1)
+        bad0 = alias_free(st)
+        self.obls.append(Obligation('%s/%s/establish/REBOUND-ARRAYS-not-aliased' % (self.c.key, lname), [], z3.BoolVal(not bad0), kind='frame'))
         # 1. establish
         for cname, g in self.inv_clauses(spec, st, {'_it': z3.IntVal(0)} if is_for else None):
             self.oblige(st, '%s/establish/%s' % (lname, cname), g)
@@ -1544,6 +1576,9 @@ class Engine:
                 self.used_ghost.add(('after', 'body:' + key))
                 self.run_ghost(ga, s2)
             if out in ('fall', 'continue'):
+                badp = alias_free(s2)
+                self.obls.append(Obligation('%s/%s/preserve/REBOUND-ARRAYS-not-aliased/p%d' % (self.c.key, lname, pnum), list(s2.pc) if badp else [],
+                                            z3.Not(z3.And(*s2.pc)) if badp else z3.BoolVal(True), kind='frame'))
                 for cname, g in self.inv_clauses(spec, s2, {'_it': itc + 1} if is_for else None):
                     self.oblige(s2, '%s/preserve/%s/p%d' % (lname, cname, pnum), g)
             elif out == 'break':
@@ -2159,6 +2194,81 @@ def _sb_lemma_Qrawg_def(eng, st, node):
     return z3.Implies(hyp, tsum(K, n) == Qrawg(W, c, g, sd, n))
 
 
+def _sb_lemma_QrawB_def(eng, st, node):
+    """DEFINITION (Lean: Qraw, by rfl): K[x][y] == (B[x][y] if c[x] == c[y] else 0) for all cells => tsum(K) == QrawB(B, c).  lemma_QrawB_def(K, B, c, n)."""
+    K = _term2(eng, st, eng.ev(node.args[0], st))
+    B = _term2(eng, st, eng.ev(node.args[1], st))
+    c = _term1i(eng, st, eng.ev(node.args[2], st))
+    n = to_z3(eng.ev(node.args[3], st), INT)
+    x, y = z3.Ints('x!bd y!bd')
+    hyp = z3.ForAll([x, y], z3.Implies(z3.And(x >= 0, x < n, y >= 0, y < n), z3.Select(z3.Select(K, x), y) == z3.If(z3.Select(c, x) == z3.Select(c, y), z3.Select(z3.Select(B, x), y), z3.RealVal(0))))
+    return z3.Implies(hyp, tsum(K, n) == QrawB(B, c, n))
+
+
+def _sb_lemma_trace_agg(eng, st, node):
+    """LEMMA (Lean: trace_agg): the trace of the module-by-module aggregate is the within-module total.
+    lemma_trace_agg(w, B, c, m, n): w[a][b] == agg(B, c, a, b, n) (a, b < m), labels in 1..m  =>  trace(w) == QrawB(B, c, n)."""
+    w = _term2(eng, st, eng.ev(node.args[0], st))
+    B = _term2(eng, st, eng.ev(node.args[1], st))
+    c = _term1i(eng, st, eng.ev(node.args[2], st))
+    m = to_z3(eng.ev(node.args[3], st), INT)
+    n = to_z3(eng.ev(node.args[4], st), INT)
+    a, b, y = z3.Ints('a!ta b!ta y!ta')
+    hyp = z3.And(z3.ForAll([a, b], z3.Implies(z3.And(a >= 0, a < m, b >= 0, b < m), z3.Select(z3.Select(w, a), b) == agg(B, c, a, b, n))),
+                 z3.ForAll([y], z3.Implies(z3.And(y >= 0, y < n), z3.And(z3.Select(c, y) >= 1, z3.Select(c, y) <= m))))
+    return z3.Implies(hyp, trace1(w, m) == QrawB(B, c, n))
+
+
+def _sb_lemma_relabel_B(eng, st, node):
+    """LEMMA (Lean: Qraw_relabel): QrawB depends on the labels only through the equality pattern.  lemma_relabel_B(B, c1, c2, n)."""
+    B = _term2(eng, st, eng.ev(node.args[0], st))
+    c1 = _term1i(eng, st, eng.ev(node.args[1], st))
+    c2 = _term1i(eng, st, eng.ev(node.args[2], st))
+    n = to_z3(eng.ev(node.args[3], st), INT)
+    y, zz = z3.Ints('y!r z!r')
+    hyp = z3.ForAll([y, zz], z3.Implies(z3.And(y >= 0, y < n, zz >= 0, zz < n), (z3.Select(c1, y) == z3.Select(c1, zz)) == (z3.Select(c2, y) == z3.Select(c2, zz))))
+    return z3.Implies(hyp, QrawB(B, c1, n) == QrawB(B, c2, n))
+
+
+def _sb_lemma_agg_compose_B(eng, st, node):
+    """LEMMA (Lean: agg_comp + Qraw_agg_comp): aggregation composes, arbitrary kernel.  lemma_agg_compose_B(B0, cur, Bl, p, new, N0, n):
+    hypotheses as lemma_agg_compose; conclusion: agg(Bl, p) == agg(B0, new) cell by cell and QrawB(Bl, p) == QrawB(B0, new)."""
+    B0 = _term2(eng, st, eng.ev(node.args[0], st))
+    cur = _term1i(eng, st, eng.ev(node.args[1], st))
+    Bl = _term2(eng, st, eng.ev(node.args[2], st))
+    p_ = _term1i(eng, st, eng.ev(node.args[3], st))
+    new = _term1i(eng, st, eng.ev(node.args[4], st))
+    N0 = to_z3(eng.ev(node.args[5], st), INT)
+    n = to_z3(eng.ev(node.args[6], st), INT)
+    a, b, x = z3.Ints('a!c b!c x!c')
+    hyp = z3.And(z3.ForAll([a, b], z3.Implies(z3.And(a >= 0, a < n, b >= 0, b < n), z3.Select(z3.Select(Bl, a), b) == agg(B0, cur, a, b, N0))),
+                 z3.ForAll([x], z3.Implies(z3.And(x >= 0, x < N0), z3.And(z3.Select(cur, x) >= 1, z3.Select(cur, x) <= n,
+                                                                          z3.Select(new, x) == z3.Select(p_, z3.Select(cur, x) - 1)))))
+    concl = z3.And(z3.ForAll([a, b], agg(Bl, p_, a, b, n) == agg(B0, new, a, b, N0), patterns=[agg(Bl, p_, a, b, n)]),
+                   QrawB(Bl, p_, n) == QrawB(B0, new, N0))
+    return z3.Implies(hyp, concl)
+
+
+def _sb_lemma_Q_from_kernel(eng, st, node):
+    """LEMMA (Lean: Q_from_symmetrised_kernel): if Bo is the symmetrised modularity kernel of W, Bo[x][y] == (K[x][y] + K[y][x]) / 2 with
+    K[x][y] = W[x][y] - (gamma * (rowsum(W, x) * colsum(W, y))) / s and s == tsum(W), then QrawB(Bo, c) / s == Qmod(W, c, gamma).
+    lemma_Q_from_kernel(Bo, W, c, gamma, s, n); products / quotients in the arithmetic mode of the contract."""
+    Bo = _term2(eng, st, eng.ev(node.args[0], st))
+    W = _term2(eng, st, eng.ev(node.args[1], st))
+    c = _term1i(eng, st, eng.ev(node.args[2], st))
+    g = to_z3(eng.ev(node.args[3], st), REAL)
+    s_ = to_z3(eng.ev(node.args[4], st), REAL)
+    n = to_z3(eng.ev(node.args[5], st), INT)
+    x, y = z3.Ints('x!qk y!qk')
+
+    def K(a, b):
+        prod = eng.binop(ast.Mult(), sum1(z3.Select(W, a), n), csum(W, b, n), st)
+        return z3.Select(z3.Select(W, a), b) - to_z3(eng.binop(ast.Div(), eng.binop(ast.Mult(), g, prod, st), s_, st), REAL)
+    hyp = z3.And(s_ == tsum(W, n),
+                 z3.ForAll([x, y], z3.Implies(z3.And(x >= 0, x < n, y >= 0, y < n), z3.Select(z3.Select(Bo, x), y) == (K(x, y) + K(y, x)) / 2)))
+    return z3.Implies(hyp, to_z3(eng.binop(ast.Div(), QrawB(Bo, c, n), s_, st), REAL) == Qmod(W, c, g, n))
+
+
 def _sb_lemma_agg_symm(eng, st, node):
     """LEMMA (Lean: agg_symm): the aggregate of a symmetric matrix is symmetric.  lemma_agg_symm(W, c, n)."""
     W = _term2(eng, st, eng.ev(node.args[0], st))
@@ -2493,7 +2603,7 @@ SPEC_BUILTINS = {
     'dot2': _sb_dot2, 'isperm': _sb_isperm, 'same_object': _sb_same_object, 'unchanged': _sb_unchanged,
     'snapshot': _sb_snapshot, 'argref': _sb_argref, 'lam1': _sb_lam1, 'KCf': _sb_KCf, 'KNf': _sb_KNf, 'result_is_empty': _sb_result_is_empty, 'hopsint': _sb_hopsint, 'lam2': _sb_lam2, 'unique_witness': _sb_unique_witness, 'member': _sb_member, 'dset': _sb_dset(dset), 'rset': _sb_dset(rset), 'wset': _sb_dset(wset), 'cntb': _sb_cntb,
     'modsum': _mk_mod(modsum, 3), 'modsumT': _mk_mod(modsumT, 3), 'degsum': _mk_mod(degsum, 2), 'degsumT': _mk_mod(degsumT, 2), 'agg': _mk_mod(agg, 3),
-    'Qmod': _sb_Qmod, 'walk': _sb_walk, 'isint': (lambda eng, st, node: z3.IsInt(to_z3(eng.ev(node.args[0], st), REAL))), 'sdist': _sb_sdist, 'lemma_walks': _sb_lemma_walks, 'Qrawg': _sb_Qrawg, 'umul': _sb_umul, 'lemma_umul_linear': _sb_lemma_umul_linear, 'QrawB': _mk_mod(QrawB, 1), 'tsum': _mk_specfn(tsum, 1), 'csum': _mk_specfn(csum, 2), 'lemma_modularity': _sb_lemma_modularity, 'lemma_knm_sums': _sb_lemma_knm_sums, 'lemma_relabel': _sb_lemma_relabel, 'lemma_relabel_g': _sb_lemma_relabel_g, 'lemma_agg_compose': _sb_lemma_agg_compose, 'lemma_Qrawg_def': _sb_lemma_Qrawg_def, 'lemma_agg_compose_g': _sb_lemma_agg_compose_g, 'lemma_qg_from_aggregate': _sb_lemma_qg_from_aggregate, 'lemma_flat_count': _sb_lemma_flat_count, 'unique_count': (lambda eng, st, node: st.ghost['unique_count_last']), 'rounds_to': _sb_rounds_to, 'where_index': _sb_where_index, 'argsort_inverse': _sb_argsort_inverse, 'exists': _sb_exists, 'lemma_tsum_add': _sb_lemma_tsum_add, 'lemma_tsum_int': _sb_lemma_tsum_int, 'lemma_full_offdiag': _sb_lemma_full_offdiag, 'flat_store_rows': (lambda eng, st, node: st.ghost['_flat_store'][0]), 'flat_store_cols': (lambda eng, st, node: st.ghost['_flat_store'][1]), 'flat_store_len': (lambda eng, st, node: st.ghost['_flat_store'][2]), 'lemma_tsum_plus_transpose': _sb_lemma_tsum_plus_transpose, 'lemma_image_count': _sb_lemma_image_count,
+    'Qmod': _sb_Qmod, 'walk': _sb_walk, 'isint': (lambda eng, st, node: z3.IsInt(to_z3(eng.ev(node.args[0], st), REAL))), 'sdist': _sb_sdist, 'lemma_walks': _sb_lemma_walks, 'Qrawg': _sb_Qrawg, 'umul': _sb_umul, 'lemma_umul_linear': _sb_lemma_umul_linear, 'QrawB': _mk_mod(QrawB, 1), 'tsum': _mk_specfn(tsum, 1), 'csum': _mk_specfn(csum, 2), 'lemma_modularity': _sb_lemma_modularity, 'lemma_knm_sums': _sb_lemma_knm_sums, 'lemma_relabel': _sb_lemma_relabel, 'lemma_relabel_g': _sb_lemma_relabel_g, 'lemma_agg_compose': _sb_lemma_agg_compose, 'lemma_Q_from_kernel': _sb_lemma_Q_from_kernel, 'lemma_QrawB_def': _sb_lemma_QrawB_def, 'lemma_trace_agg': _sb_lemma_trace_agg, 'lemma_relabel_B': _sb_lemma_relabel_B, 'lemma_agg_compose_B': _sb_lemma_agg_compose_B, 'lemma_Qrawg_def': _sb_lemma_Qrawg_def, 'lemma_agg_compose_g': _sb_lemma_agg_compose_g, 'lemma_qg_from_aggregate': _sb_lemma_qg_from_aggregate, 'lemma_flat_count': _sb_lemma_flat_count, 'unique_count': (lambda eng, st, node: st.ghost['unique_count_last']), 'rounds_to': _sb_rounds_to, 'where_index': _sb_where_index, 'argsort_inverse': _sb_argsort_inverse, 'exists': _sb_exists, 'lemma_tsum_add': _sb_lemma_tsum_add, 'lemma_tsum_int': _sb_lemma_tsum_int, 'lemma_full_offdiag': _sb_lemma_full_offdiag, 'flat_store_rows': (lambda eng, st, node: st.ghost['_flat_store'][0]), 'flat_store_cols': (lambda eng, st, node: st.ghost['_flat_store'][1]), 'flat_store_len': (lambda eng, st, node: st.ghost['_flat_store'][2]), 'lemma_tsum_plus_transpose': _sb_lemma_tsum_plus_transpose, 'lemma_image_count': _sb_lemma_image_count,
     'frow': (lambda eng, st, node: frow(to_z3(eng.ev(node.args[0], st), INT), to_z3(eng.ev(node.args[1], st), INT))), 'fcol': (lambda eng, st, node: fcol(to_z3(eng.ev(node.args[0], st), INT), to_z3(eng.ev(node.args[1], st), INT))), 'lemma_agg_symm': _sb_lemma_agg_symm, 'lemma_agg_identity': _sb_lemma_agg_identity, 'lemma_q_from_aggregate': _sb_lemma_q_from_aggregate,
     'lemma_masked_degree': _sb_lemma_masked_degree, 'lemma_degree_monotone': _sb_lemma_degree_monotone, 'result': _sb_result, 'raised': _sb_raised, 'shape_is': _sb_shape_is,
 }
